@@ -4,7 +4,7 @@
     iteration orders of Axis.neighbours and Wire.coincidents as explicit oracle arguments).  Every
     theorem quantifies over ALL assemblies [bs] (any number of blocks, any vertex identification, any
     corner numbering, any insertion order: these are all just different [bs]) and ALL oracles. *)
-From Coq Require Import List Bool Arith.
+From Coq Require Import List Bool Arith Lia.
 From CB Require Import Base.Hex Model.Propagate Proofs.PropagateBasics Proofs.PropagateTerm Proofs.PropagateInv
   Proofs.PropagateInit Proofs.PropagateShort Proofs.PropagateFinal Proofs.PropagateOrder.
 From CB Require Import Gen.C02.Tables.
@@ -55,7 +55,9 @@ Qed.
     of the C04 defect) the whole section lists.  A conflict of counts is always reported.  For chops of
     one section each ([single_section]) nothing else can go wrong: without a count conflict writing
     succeeds.  For multi-section chops writing succeeds exactly when, in addition, the section lists
-    meeting on every shared edge agree (C02_complete_sections). *)
+    meeting on every shared edge agree (C02_complete_sections), which is decided by the user's chops alone:
+    exactly when the chops the USER placed on directions sharing an edge agree there
+    (C02_complete_sections_input). *)
 Definition C02_complete_stmt : Prop :=
   forall bs o_coin o_nbrs, nondegenerate bs = true -> oracle_ok bs o_coin o_nbrs = true ->
     every_family_chopped bs ->
@@ -169,6 +171,28 @@ Definition C02_free_wire_sections_order_dependent_stmt : Prop :=
 Theorem C02_free_wire_sections_order_dependent : C02_free_wire_sections_order_dependent_stmt.
 Proof. vm_compute. repeat split; reflexivity. Qed.
 
+(** hence the literal statement "the section list of every wire of the final state is independent of the
+    iteration order" is FALSE of the model (and of the code: see notes/C02.md); only free wires of
+    propagated blocks are affected, they are not compared by the consistency check and are not part of
+    the counts the property speaks about *)
+Definition C02_sections_order_independent_stmt : Prop :=
+  forall bs o1 n1 o2 n2, nondegenerate bs = true ->
+    oracle_ok bs o1 n1 = true -> oracle_ok bs o2 n2 = true ->
+    forall s1 s2, final bs o1 n1 = Some s1 -> final bs o2 n2 = Some s2 ->
+      forall w, In w (all_wires (nblocks bs)) -> g s1 w = g s2 w.
+
+Theorem C02_sections_order_independent_refuted : ~ C02_sections_order_independent_stmt.
+Proof.
+  intro H. destruct C02_free_wire_sections_order_dependent as (ND & _ & K1 & K2 & _ & _ & M).
+  specialize (H ow_blocks _ _ _ _ ND K1 K2).
+  destruct (final ow_blocks (o_coin_ins ow_blocks) (o_nbrs_ins ow_blocks)) as [s1|]; [|contradiction].
+  destruct (final ow_blocks ow_coin_rev ow_nbrs_rev) as [s2|]; [|contradiction].
+  destruct M as [M1 M2]. specialize (H s1 s2 eq_refl eq_refl (2, 0, 1)).
+  assert (In (2, 0, 1) (all_wires (nblocks ow_blocks))) as I.
+  { apply in_all_wires. split; [apply in_all_axes|]; simpl; lia. }
+  specialize (H I). simpl in M1, M2. inversion M1. inversion M2. congruence.
+Qed.
+
 (** the order in which the (repaired) implementation walks its containers is the insertion order, a
     function of the script; it is a valid oracle, so the outcome is a function of the script *)
 Definition C02_deterministic_stmt : Prop :=
@@ -209,4 +233,5 @@ Print Assumptions C02_complete_sections_input.
 Print Assumptions C02_order_independent.
 Print Assumptions C02_order_independent_kind.
 Print Assumptions C02_free_wire_sections_order_dependent.
+Print Assumptions C02_sections_order_independent_refuted.
 Print Assumptions C02_deterministic.
